@@ -13,14 +13,16 @@
 (*   ver  : "1.1" | "1.0"                                                   *)
 (*   conn : value of the Connection request field (a comma separated token  *)
 (*          list, RFC 9110 7.6.1; tokens are case-insensitive)              *)
-(*   kind : "ok" (well-formed), "bad" (malformed head), "hijack" (handler   *)
+(*   kind : "ok" (well-formed), "timeout" (the handler answers through      *)
+(*          ctx.TimeoutError: the ctx is replaced before the response is    *)
+(*          written), "bad" (malformed head), "hijack" (handler             *)
 (*          hijacks), "hijacknr" (hijack + HijackSetNoResponse)             *)
 (*   hclose: handler calls SetConnectionClose                               *)
 (***************************************************************************)
 EXTENDS Integers, Sequences, FiniteSets, TLC
 
 CONSTANTS
-  Cfgs,        \* set of server configurations [dk, maxReqs, rmu, viaServe, keepHij]
+  Cfgs,        \* set of server configurations [dk, maxReqs, rmu, viaServe, keepHij, perIP]
   Reqs,        \* menu of request records the client may send
   MaxBatches,  \* number of client writes
   MaxPerBatch, \* pipelined requests per write
@@ -154,7 +156,7 @@ Respond ==
   /\ LET mc == MustClose(cfg, cur, n)
          rc == RespConn(cfg, cur, n) IN
      /\ resps' = IF cur.kind = "hijacknr" THEN resps
-                 ELSE Append(resps, [status |-> 200, conn |-> rc])
+                 ELSE Append(resps, [status |-> IF cur.kind = "timeout" THEN 408 ELSE 200, conn |-> rc])
      /\ IF mc /\ cur.kind # "hijacknr"
         THEN \* Connection: close was sent: the connection is closed.  As RequestCtx.Hijack
              \* documents, the hijack handler is skipped when 'Connection: close' exists in
